@@ -580,6 +580,7 @@ func checkBulkOps(p *Program, r *Report, prop string) {
 	}
 	// ---- R02.6
 	checkArgmax(p, r)
+	checkArgmaxRunningBest(p, r)
 }
 
 func describeObj(v ssa.Value) string {
@@ -910,6 +911,44 @@ func checkArgmax(p *Program, r *Report) {
 	}
 	prm := fn.Params[0]
 	key := "data.Argmax:return"
+	// Argmax may hand its vector to a helper of the package and return one of the helper's results
+	// (`pos, _ := firstMaximum(vector); return pos`): the index space is then judged in the helper
+	retIdx := 0
+	for depth := 0; depth < 2; depth++ {
+		var h *ssa.Function
+		hi, hk := -1, -1
+		okAll := true
+		for _, ret := range returnsOf(fn) {
+			var call *ssa.Call
+			ri := 0
+			switch x := origin1OrSelf(ret.Results[retIdx]).(type) {
+			case *ssa.Extract:
+				call, _ = x.Tuple.(*ssa.Call)
+				ri = x.Index
+			case *ssa.Call:
+				call = x
+			}
+			if call == nil || call.Common().StaticCallee() == nil || !InModule(call.Common().StaticCallee()) || call.Common().StaticCallee().Blocks == nil {
+				okAll = false
+				break
+			}
+			k := -1
+			for i, a := range call.Common().Args {
+				if origin1OrSelf(a) == ssa.Value(prm) {
+					k = i
+				}
+			}
+			if k < 0 || (h != nil && (h != call.Common().StaticCallee() || hi != ri || hk != k)) {
+				okAll = false
+				break
+			}
+			h, hi, hk = call.Common().StaticCallee(), ri, k
+		}
+		if !okAll || h == nil || hk >= len(h.Params) {
+			break
+		}
+		fn, prm, retIdx = h, h.Params[hk], hi
+	}
 	// index-space evidence: value i used as IndexAddr(X, i); X is prm (offset 0) or Slice(prm, Low=k)
 	space := func(v ssa.Value) (off int64, known bool) {
 		for _, ref := range refs(v) {
@@ -985,7 +1024,9 @@ func checkArgmax(p *Program, r *Report) {
 	nRet := 0
 	for _, ret := range returnsOf(fn) {
 		nRet++
-		walk(ret.Results[0], 0, map[ssa.Value]bool{})
+		if retIdx < len(ret.Results) {
+			walk(ret.Results[retIdx], 0, map[ssa.Value]bool{})
+		}
 	}
 	for _, rs := range results {
 		if !rs.known {
@@ -2466,4 +2507,177 @@ func checkContiguousCoversAllAxes(p *Program, r *Report) {
 		}
 	}
 	r.Floor("R02.13", "Contiguous implementations", n, 9)
+}
+
+// checkArgmaxRunningBest (R02.14): Argmax compares each entry with the best one so far. In the loop that updates the
+// position it returns, the comparison that decides an update has on its other side the running maximum — a variable
+// carried round the loop that is set to the entry on the very branch that updates the position — or the entry at the
+// position held so far (vector[res]). Comparing with anything else (the previous entry, a fixed entry) gives the
+// position of the last rise, not of the largest entry, for every vector that rises again after its peak.
+func checkArgmaxRunningBest(p *Program, r *Report) {
+	r.Rule("R02.14", "Argmax compares with the best so far: in data.Argmax (or the helper it hands its vector to) every update of the returned position is decided by a comparison of the current entry with a loop-carried variable that the same branch sets to that entry, or with the entry at the position held so far — not with the preceding entry or any other value")
+	pk := p.SSAPkg[modPath+"/data"]
+	fn := pk.Func("Argmax")
+	if fn == nil {
+		r.Undecided("R02.14", "data.Argmax", "-", "data.Argmax not found")
+		return
+	}
+	// follow a delegation to a helper (as R02.6 does)
+	prm := fn.Params[0]
+	retIdx := 0
+	for depth := 0; depth < 2; depth++ {
+		rets := returnsOf(fn)
+		if len(rets) != 1 || retIdx >= len(rets[0].Results) {
+			break
+		}
+		var call *ssa.Call
+		ri := 0
+		switch x := origin1OrSelf(rets[0].Results[retIdx]).(type) {
+		case *ssa.Extract:
+			call, _ = x.Tuple.(*ssa.Call)
+			ri = x.Index
+		case *ssa.Call:
+			call = x
+		}
+		if call == nil || call.Common().StaticCallee() == nil || call.Common().StaticCallee().Blocks == nil || !InModule(call.Common().StaticCallee()) {
+			break
+		}
+		k := -1
+		for i, a := range call.Common().Args {
+			if origin1OrSelf(a) == ssa.Value(prm) {
+				k = i
+			}
+		}
+		h := call.Common().StaticCallee()
+		if k < 0 || k >= len(h.Params) {
+			break
+		}
+		fn, prm, retIdx = h, h.Params[k], ri
+	}
+	key := "data.Argmax:running-best"
+	loops := findLoops(fn)
+	n := 0
+	bad := ""
+	for _, ret := range returnsOf(fn) {
+		if retIdx >= len(ret.Results) {
+			continue
+		}
+		// the loop-header phis the returned value comes from (through join phis)
+		var heads []*ssa.Phi
+		seenPhi := map[ssa.Value]bool{}
+		var find func(v ssa.Value, depth int)
+		find = func(v ssa.Value, depth int) {
+			ph, ok := v.(*ssa.Phi)
+			if !ok || seenPhi[v] || depth > 6 {
+				return
+			}
+			seenPhi[v] = true
+			if l := innermostLoop(loops, ph.Block()); l != nil && ph.Block() == l.Header {
+				heads = append(heads, ph)
+				return
+			}
+			for _, e := range ph.Edges {
+				find(e, depth+1)
+			}
+		}
+		find(ret.Results[retIdx], 0)
+		for _, res := range heads {
+			l := innermostLoop(loops, res.Block())
+			sameEntry := func(a, b ssa.Value) bool {
+				if a == b || origin1OrSelf(a) == origin1OrSelf(b) {
+					return true
+				}
+				// two reads of the same element (`vector[i] > best` … `best = vector[i]`): go/ssa does not share them
+				la, ok1 := a.(*ssa.UnOp)
+				lb, ok2 := b.(*ssa.UnOp)
+				if ok1 && ok2 && la.Op == token.MUL && lb.Op == token.MUL {
+					ia, ok3 := la.X.(*ssa.IndexAddr)
+					ib, ok4 := lb.X.(*ssa.IndexAddr)
+					return ok3 && ok4 && ia.X == ib.X && ia.Index == ib.Index
+				}
+				return false
+			}
+			carriesCur := func(m *ssa.Phi, cur ssa.Value) bool {
+				// some way round the loop sets the carried variable to the current entry
+				for i2, me := range m.Edges {
+					if !l.Blocks[l.Header.Preds[i2]] {
+						continue
+					}
+					if sameEntry(me, cur) {
+						return true
+					}
+					if jp, ok := me.(*ssa.Phi); ok {
+						for _, je := range jp.Edges {
+							if sameEntry(je, cur) {
+								return true
+							}
+						}
+					}
+				}
+				return false
+			}
+			isBest := func(v, cur ssa.Value) bool {
+				// (a) a carried variable set to the current entry when the position is updated
+				if m, ok := v.(*ssa.Phi); ok && m.Block() == l.Header && carriesCur(m, cur) {
+					return true
+				}
+				// (b) the entry at the position held so far
+				if ld, ok := v.(*ssa.UnOp); ok && ld.Op == token.MUL {
+					if ia, ok := ld.X.(*ssa.IndexAddr); ok {
+						hit := false
+						dependsOn(ia.Index, func(x ssa.Value) bool {
+							if x == ssa.Value(res) {
+								hit = true
+							}
+							return false
+						}, map[ssa.Value]bool{})
+						return hit
+					}
+				}
+				return false
+			}
+			var update func(e ssa.Value, pred *ssa.BasicBlock, depth int)
+			update = func(e ssa.Value, pred *ssa.BasicBlock, depth int) {
+				if e == ssa.Value(res) || depth > 4 {
+					return
+				}
+				if jp, ok := e.(*ssa.Phi); ok && l.Blocks[jp.Block()] && jp.Block() != l.Header {
+					for k2, je := range jp.Edges {
+						update(je, jp.Block().Preds[k2], depth+1)
+					}
+					return
+				}
+				var cmp *ssa.BinOp
+				for _, g := range guardsAt(pred) {
+					if bo, ok := g.Cond.(*ssa.BinOp); ok && l.Blocks[g.If.Block()] && g.If.Block() != l.Header {
+						switch bo.Op {
+						case token.GTR, token.GEQ, token.LSS, token.LEQ:
+							cmp = bo
+						}
+					}
+				}
+				if cmp == nil {
+					return
+				}
+				n++
+				if !isBest(cmp.X, cmp.Y) && !isBest(cmp.Y, cmp.X) {
+					bad = "the comparison that decides an update of the position compares the entry with something that is neither the running maximum (a variable the same branch sets to the entry) nor the entry at the position held so far"
+				}
+			}
+			for i, e := range res.Edges {
+				if l.Blocks[l.Header.Preds[i]] {
+					update(e, l.Header.Preds[i], 0)
+				}
+			}
+		}
+	}
+	switch {
+	case bad != "":
+		r.Fail("R02.14", key, p.Pos(fn.Pos()), "Argmax: "+bad+": for a vector that rises again after its peak ({9,2,3}) the position of the last rise is returned, not that of the largest entry")
+	case n == 0:
+		r.Unsupported("R02.14", "data.Argmax does not update its result in a loop under a comparison: the form is not followed")
+	default:
+		r.OK("R02.14", "data.Argmax: every update of the position compares the entry with the best so far")
+	}
+	_ = prm
 }
